@@ -42,7 +42,7 @@ class Rec:
     __slots__ = (
         "tid", "name", "role", "baton", "state", "wake_value", "deadline", "wait_gen", "prio",
         "fn", "is_root", "waiting_on", "spin_a", "spin_b", "spin_n", "exc", "obj", "steps",
-        "blocked_since", "settling", "step_wake", "stall_at", "stall_dur",
+        "blocked_since", "settling", "step_wake", "stall_at", "stall_dur", "stall_wake", "stall_off", "since_wake",
     )
 
     def __init__(self, tid, name, role, fn, is_root=False):
@@ -70,6 +70,9 @@ class Rec:
         self.step_wake = None
         self.stall_at = None
         self.stall_dur = 0.0
+        self.stall_wake = None      # wake-relative stall: after the thread's n-th wake-up from a blocking call ...
+        self.stall_off = 0          # ... at its k-th yield point
+        self.since_wake = 0
 
     def __repr__(self):
         return f"<T{self.tid} {self.role}:{self.name} {self.state}>"
@@ -199,7 +202,13 @@ class Kernel:
         cfg = self.stall_cfg
         if cfg and self.stalls_left > 0 and self.rng.random() < cfg.get("q", 0.15):
             self.stalls_left -= 1
-            rec.stall_at = self.rng.randrange(1, cfg.get("J", 40) + 1)
+            if "W" in cfg:
+                # "woken but not yet running": frozen shortly after one of its first W wake-ups (0 = thread start), where
+                # a thread reacts to what woke it (accept returned, data arrived, event set, timer expired)
+                rec.stall_wake = self.rng.randrange(0, cfg["W"] + 1)
+                rec.stall_off = self.rng.randrange(1, cfg.get("J", 40) + 1)
+            else:
+                rec.stall_at = self.rng.randrange(1, cfg.get("J", 40) + 1)
             rec.stall_dur = self.rng.choice(cfg.get("durs", [0.05, 0.5, 3.0]))
         self.threads.append(rec)
         with self._live_lock:
@@ -423,6 +432,14 @@ class Kernel:
             self.now += self.step_cost
         if self.heap and self.heap[0][0] <= self.now:
             self._fire_due()   # events that are due (zero-latency deliveries, expired timers) land mid-activity
+        if cur.stall_wake is not None:
+            if cur.wait_gen == cur.stall_wake:
+                cur.since_wake += 1
+                if cur.since_wake >= cur.stall_off:
+                    cur.stall_wake = None
+                    cur.stall_at = 0
+            elif cur.wait_gen > cur.stall_wake:
+                cur.stall_wake = None
         if cur.stall_at is not None and cur.steps >= cur.stall_at:
             cur.stall_at = None
             self.stalled_total += cur.stall_dur
@@ -548,6 +565,11 @@ class Kernel:
     def advance(self, dt):
         self.sleep(dt)
         self.settle()
+
+    def stalled_now(self):
+        """True while some thread is frozen by a stall fault."""
+        return any(r.state == BLOCKED and isinstance(r.waiting_on, tuple) and r.waiting_on and r.waiting_on[0] == "stall"
+                   for r in self.threads)
 
     def stalled_within(self, t0, t1):
         """Virtual seconds during [t0, t1] in which some thread was frozen by the stall fault."""
